@@ -558,6 +558,8 @@ bases `[Y_0 … Y_{n-1}] ++ extra ++ [C]` given as compressed points) -/
 def blindOp (toks : List String) : Option String :=
   open AC.Sigma in
   match toks with
+  | ["bl.items", suite, pk, gen, rc, bc, nonce] =>
+    some (" ".intercalate ((blindItems (suite == "bbs") pk gen rc bc nonce).map fun e => e.1.replace " " "_" ++ "=" ++ e.2))
   | ["bl.verify", n, known, nExtra, proofs, challenge, bases] =>
     match n.toNat?, natsOf? known, nExtra.toNat?, listOf? frOf? proofs, frOf? challenge with
     | some n, some known, some nExtra, some proofs, some c =>
@@ -590,7 +592,10 @@ def recommitOp (toks : List String) : Option String :=
     | some n, some off, some rvl, some proof, some claim, some c, some sb =>
       some (match linkedResponse n off rvl proof claim with
         | none => "no-linked-response"
-        | some sm => lin [m, b, cc] (commitmentRecommit (Lin.unit 3 0) (Lin.unit 3 1) (Lin.unit 3 2) c sm sb))
+        | some sm =>
+          -- the hashed items of the statement: the commitment itself, then the recomputed value
+          let r := lin [m, b, cc] (commitmentRecommit (Lin.unit 3 0) (Lin.unit 3 1) (Lin.unit 3 2) c sm sb)
+          " ".intercalate ((commitmentItems cc r).map fun e => e.1.replace " " "_" ++ "=" ++ e.2))
     | _, _, _, _, _, _, _ => none
   | ["eg.recommit", n, offset, rvl, proof, claim, c, sb, g, m, k, c1, c2] =>
     match n.toNat?, offset.toNat?, natsOf? rvl, listOf? frOf? proof, claim.toNat?, frOf? c, frOf? sb with
@@ -599,7 +604,7 @@ def recommitOp (toks : List String) : Option String :=
         | none => "no-linked-response"
         | some sm =>
           let r := elgamalRecommit (Lin.unit 5 0) (Lin.unit 5 1) (Lin.unit 5 2) (Lin.unit 5 3) (Lin.unit 5 4) c sm sb
-          lin [g, m, k, c1, c2] r.1 ++ " " ++ lin [g, m, k, c1, c2] r.2)
+          " ".intercalate ((elgamalItems c1 c2 (lin [g, m, k, c1, c2] r.1) (lin [g, m, k, c1, c2] r.2)).map fun e => e.1 ++ "=" ++ e.2))
     | _, _, _, _, _, _, _ => none
   | _ => none
 
